@@ -26,6 +26,7 @@ type FieldCase struct {
 	Elems   []*StructCase // KSStruct / KMStruct elements
 	Keys    []string      // KMStruct keys
 	Path    string        // dotted path of the setting
+	Null0   bool          // list kinds of numbers: the first element of the input is null
 }
 
 // StructCase is the plan for a struct value.
@@ -121,8 +122,11 @@ func (g *gen) genCase(s *Struct, path string, depth int) *StructCase {
 				fc.Keys = append(fc.Keys, k)
 				fc.Elems = append(fc.Elems, g.genCase(f.Sub, join(fc.Path, k), depth+1))
 			}
-		case KSInt, KSStr, KSVInt:
+		case KSInt, KSStr, KSVInt, KPSInt:
 			fc.Len = 1 + t.Choose(3, "list-len")
+			if f.Kind != KSStr && t.Chance(1, 6, "null-element") {
+				fc.Null0 = true
+			}
 		case KIface, KCfg:
 			fc.Pre = false
 		}
@@ -161,7 +165,7 @@ func (sc *StructCase) input() map[string]interface{} {
 func (fc *FieldCase) input() interface{} {
 	n := fc.N
 	switch fc.F.Kind {
-	case KInt, KInt8, KUint16, KPInt, KVInt, KUInt:
+	case KInt, KInt8, KUint16, KPInt, KVInt, KUInt, KPI:
 		return uint64(10 + n%80)
 	case KF64, KUFloat, KF32:
 		return float64(n) + 0.5
@@ -175,9 +179,13 @@ func (fc *FieldCase) input() interface{} {
 		return "u" + itoa(n)
 	case KUCfg:
 		return map[string]interface{}{"p": uint64(1), "q": uint64(2)}
-	case KSInt, KSVInt:
+	case KSInt, KSVInt, KPSInt:
 		var l []interface{}
 		for i := 0; i < fc.Len; i++ {
+			if i == 0 && fc.Null0 {
+				l = append(l, nil)
+				continue
+			}
 			l = append(l, uint64(10+(n+i)%80))
 		}
 		return l
@@ -189,7 +197,7 @@ func (fc *FieldCase) input() interface{} {
 		return l
 	case KA2:
 		return []interface{}{uint64(10 + n%80), uint64(11 + n%80)}
-	case KMInt:
+	case KMInt, KMVInt:
 		return map[string]interface{}{"p": uint64(10 + n%80), "q": uint64(11 + n%80)}
 	case KMSlice:
 		return map[string]interface{}{"p": []interface{}{uint64(10 + n%80)}, "q": []interface{}{uint64(11 + n%80), uint64(12 + n%80)}}
@@ -306,6 +314,12 @@ func (sc *StructCase) prefill(v reflect.Value) {
 			f.Set(reflect.ValueOf([2]int{1, 2}))
 		case KMInt:
 			f.Set(reflect.ValueOf(map[string]int{"p": 1, "z": 9}))
+		case KMVInt:
+			f.Set(reflect.ValueOf(map[string]VInt{"p": 3, "z": 9}))
+		case KPI:
+			f.SetInt(6)
+		case KPSInt:
+			f.Set(reflect.ValueOf(&[]int{1, 2}))
 		case KMSlice:
 			f.Set(reflect.ValueOf(map[string][]int{"p": {1, 2, 3}, "z": {9}}))
 		case KMIface:
@@ -321,6 +335,11 @@ func (sc *StructCase) prefill(v reflect.Value) {
 func ints(in interface{}) []int {
 	var out []int
 	for _, x := range in.([]interface{}) {
+		if x == nil {
+			// a null element: the zero value
+			out = append(out, 0)
+			continue
+		}
 		out = append(out, int(x.(uint64)))
 	}
 	return out
@@ -398,6 +417,14 @@ func (sc *StructCase) apply(v reflect.Value, present bool) {
 			}
 			f.Set(reflect.ValueOf(d))
 			continue
+		case KPI:
+			// without a setting the value is what InitDefaults makes of the zero value
+			if mentioned {
+				f.SetInt(int64(fc.In.(uint64)))
+			} else {
+				f.SetInt(133)
+			}
+			continue
 		}
 		if !mentioned {
 			continue
@@ -461,6 +488,24 @@ func (sc *StructCase) apply(v reflect.Value, present bool) {
 				m[k] = int(x.(uint64))
 			}
 			f.Set(reflect.ValueOf(m))
+		case KMVInt:
+			m := map[string]VInt{}
+			if !f.IsNil() {
+				for _, k := range f.MapKeys() {
+					m[k.String()] = VInt(f.MapIndex(k).Int())
+				}
+			}
+			for k, x := range in.(map[string]interface{}) {
+				m[k] = VInt(x.(uint64))
+			}
+			f.Set(reflect.ValueOf(m))
+		case KPSInt:
+			old := reflect.ValueOf([]int(nil))
+			if !f.IsNil() {
+				old = f.Elem()
+			}
+			nw := combine("", old, reflect.ValueOf(ints(in))).Interface().([]int)
+			f.Set(reflect.ValueOf(&nw))
 		case KMSlice:
 			m := map[string][]int{}
 			if !f.IsNil() {
